@@ -33,8 +33,26 @@ const (
 	cPass
 	cBlockOwn
 	cBlockPooled
+	cBlockPooledBare // pooled result, block type only (what most built-in slots do)
+	cBlockPooledMsg  // pooled result, block type + message
 	cPanic
 )
+
+func blocks(b int) bool { return b >= cBlockOwn && b <= cBlockPooledMsg }
+
+// what the block error of behaviour b raised by slot id must look like
+func wantSnap(b int, id string) (base.BlockType, string, string, interface{}) {
+	switch b {
+	case cBlockOwn:
+		return base.BlockTypeFlow, "own:" + id, id, id
+	case cBlockPooled:
+		return base.BlockTypeIsolation, "pooled:" + id, id, id
+	case cBlockPooledBare:
+		return base.BlockTypeSystemFlow, "", "", nil
+	}
+	return base.BlockTypeHotSpotParamFlow, "msg:" + id, "", nil
+}
+
 const (
 	sRecord = iota
 	sPanicPassed
@@ -53,6 +71,7 @@ type Chain struct {
 	Stat      []slotSpec `json:"stat"`
 	ExitPanic bool       `json:"exit_handler_panics"`
 	Follow    int        `json:"follow_up_entries"`
+	Pre       int        `json:"earlier_blocked_entries"` // history before the entry under test
 }
 
 func (c Chain) String() string { b, _ := json.Marshal(c); return string(b) }
@@ -96,6 +115,14 @@ func (c *checkSlot) Check(ctx *base.EntryContext) *base.TokenResult {
 	case cBlockPooled:
 		r := ctx.RuleCheckResult
 		r.ResetToBlockedWithCause(base.BlockTypeIsolation, "pooled:"+c.id, c.rule, c.id)
+		return r
+	case cBlockPooledBare:
+		r := ctx.RuleCheckResult
+		r.ResetToBlocked(base.BlockTypeSystemFlow)
+		return r
+	case cBlockPooledMsg:
+		r := ctx.RuleCheckResult
+		r.ResetToBlockedWithMessage(base.BlockTypeHotSpotParamFlow, "msg:"+c.id)
 		return r
 	}
 	panic("check " + c.id)
@@ -178,6 +205,12 @@ func evaluate(c Chain) (out string, viol string) {
 	env.ResetAll(env.DefaultGeometry, 1700000000000)
 	log = log[:0]
 	sc := build(c)
+	// history: earlier entries blocked with a full cause through the pooled result; their context and
+	// result objects are what the entry under test is handed by the pools
+	for k := 0; k < c.Pre; k++ {
+		sentinel.Entry(fmt.Sprint("earlier", k), sentinel.WithSlotChain(followChains[k%2]))
+	}
+	log = log[:0]
 	defer func() {
 		if r := recover(); r != nil {
 			viol = fmt.Sprintf("a panic reached the caller: %v", r)
@@ -206,7 +239,7 @@ func evaluate(c Chain) (out string, viol string) {
 				panicked = true
 				break
 			}
-			if c.Check[i].Beh == cBlockOwn || c.Check[i].Beh == cBlockPooled {
+			if blocks(c.Check[i].Beh) {
 				blockedBy = i
 				break
 			}
@@ -228,11 +261,8 @@ func evaluate(c Chain) (out string, viol string) {
 		var ws []string
 		for _, i := range stable(c.Stat) {
 			if blockedBy >= 0 {
-				kind := "own:"
-				if c.Check[blockedBy].Beh == cBlockPooled {
-					kind = "pooled:"
-				}
-				ws = append(ws, fmt.Sprintf("blocked:s%d:%sc%d", i, kind, blockedBy))
+				_, m, _, _ := wantSnap(c.Check[blockedBy].Beh, fmt.Sprint("c", blockedBy))
+				ws = append(ws, fmt.Sprintf("blocked:s%d:%s", i, m))
 				if c.Stat[i].Beh == sPanicBlocked {
 					statPanicsOnEntry = true
 					break
@@ -264,15 +294,15 @@ func evaluate(c Chain) (out string, viol string) {
 	var before blkSnap
 	if blk != nil {
 		before = snap(blk)
-		wantMsg := "own:"
-		wantType := base.BlockTypeFlow
-		if c.Check[blockedBy].Beh == cBlockPooled {
-			wantMsg, wantType = "pooled:", base.BlockTypeIsolation
+		wantType, wantMsg, wantRule, wantVal := wantSnap(c.Check[blockedBy].Beh, fmt.Sprint("c", blockedBy))
+		gotRule := ""
+		if r, _ := before.rule.(*testRule); r != nil {
+			gotRule = r.id
+		} else if before.rule != nil {
+			gotRule = "?"
 		}
-		wantMsg += fmt.Sprint("c", blockedBy)
-		r, _ := before.rule.(*testRule)
-		if before.msg != wantMsg || before.typ != wantType || r == nil || r.id != fmt.Sprint("c", blockedBy) || before.val != fmt.Sprint("c", blockedBy) {
-			return "", fmt.Sprintf("block error %+v is not the one produced by the blocking slot c%d", before, blockedBy)
+		if before.msg != wantMsg || before.typ != wantType || gotRule != wantRule || before.val != wantVal {
+			return "", fmt.Sprintf("block error %+v is not the one produced by the blocking slot c%d (type %v, message %q, rule %q, value %v)", before, blockedBy, wantType, wantMsg, wantRule, wantVal)
 		}
 	}
 	// ---- follow-up traffic that recycles the pooled context / result ----
@@ -337,8 +367,19 @@ func enumSpecs(maxN int, nbeh int) [][]slotSpec {
 	return out
 }
 
+func hasBlock(ck []slotSpec) bool {
+	for _, s := range ck {
+		if blocks(s.Beh) {
+			return true
+		}
+	}
+	return false
+}
+
 func signature(what string) string {
 	switch {
+	case strings.Contains(what, "call log differs"):
+		return "C16:history-dependent"
 	case strings.Contains(what, "panic reached the caller"):
 		return "C16:panic-escapes"
 	case strings.Contains(what, "ran as"), strings.Contains(what, "after the rule-check phase was over"):
@@ -361,7 +402,7 @@ func run(c *props.Ctx) {
 		np, ns = 3, 3
 	}
 	preps := enumSpecs(np, 2)
-	checks := enumSpecs(3, 5)
+	checks := enumSpecs(3, 7)
 	stats := enumSpecs(ns, 4)
 	c.R.Bounds["max_prepare_slots"] = np
 	c.R.Bounds["max_rule_check_slots"] = 3
@@ -385,6 +426,19 @@ func run(c *props.Ctx) {
 				out, v := evaluate(ch)
 				c.R.Evaluations++
 				c.R.Transitions++
+				if v == "" && hasBlock(ck) {
+					// the same chain from a non-initial state: after 1 and 2 earlier blocked entries
+					for pre := 1; pre <= 2 && v == ""; pre++ {
+						ch.Pre = pre
+						var o2 string
+						o2, v = evaluate(ch)
+						c.R.Evaluations++
+						c.R.Transitions++
+						if v == "" && o2 != out {
+							v = fmt.Sprintf("the call log differs after %d earlier blocked entries: %s vs %s", pre, o2, out)
+						}
+					}
+				}
 				if v != "" {
 					sg := signature(v)
 					perSig[sg]++
